@@ -47,3 +47,44 @@ package logx
 //@   ensures [daily-rule] result == (len(r.rotatedTime) > 0 && ret(getNowDate) != r.rotatedTime)
 //@   modifies nothing
 //@   opaque getNowDate
+
+// Backup names carry the time of the call (not a remembered one), so two rotations never share a name as
+// long as they are a timestamp apart.
+//@ func (*SizeLimitRotateRule).BackupFilename
+//@   prop C19
+//@   opaque getNowDateInRFC3339Format, parseFilename
+//@   requires r != nil
+//@   ensures [fresh-timestamp] calls(getNowDateInRFC3339Format) == 1 && calls(Sprintf) == 1 && unbox(arg(Sprintf, 1)[2], string) == ret(getNowDateInRFC3339Format)
+//@   ensures [name-parts] unbox(arg(Sprintf, 1)[0], string) == ret(r.parseFilename, 0) && unbox(arg(Sprintf, 1)[1], string) == r.delimiter && unbox(arg(Sprintf, 1)[3], string) == ret(r.parseFilename, 1)
+//@   ensures [in-dir] result == ret(filepath.Join) && calls(filepath.Dir, r.filename) == 1
+//@   modifies nothing
+//@ func (*DailyRotateRule).BackupFilename
+//@   prop C19
+//@   opaque getNowDate
+//@   requires r != nil
+//@   ensures [fresh-date] calls(getNowDate) == 1 && calls(Sprintf) == 1 && unbox(arg(Sprintf, 1)[2], string) == ret(getNowDate)
+//@   ensures [name-parts] unbox(arg(Sprintf, 1)[0], string) == r.filename && unbox(arg(Sprintf, 1)[1], string) == r.delimiter && result == ret(Sprintf)
+//@   modifies nothing
+
+// Clean-up removes exactly the files the rule reports, each once.
+//@ func (*RotateLogger).maybeDeleteOutdatedFiles
+//@   prop C19
+//@   opaque Errorf
+//@   requires l != nil
+//@   loop 1 iteration-ensures [removes-reported] calls(os.Remove) == 1 && arg(os.Remove, 0) == at_head(files[rangeindex + 1])
+//@   loop 1 invariant 0 <= rangeindex + 1 && rangeindex <= len(files)
+//@   ensures [asks-rule] calls(l.rule.OutdatedFiles) == 1
+
+// The retention boundary is computed from the current local time, like the timestamps inside backup names.
+//@ func (*SizeLimitRotateRule).OutdatedFiles
+//@   prop C19
+//@   opaque Errorf, parseFilename
+//@   requires r != nil
+//@   ensures [boundary-from-now] r.days > 0 && calls(Format) == 1 ==> calls(time.Now) == 1 && arg(Format, 0) == ret(Add) && arg(Add, 0) == ret(time.Now) && arg(Add, 1) == 0 - 3600000000000 * (24 * r.days)
+//@   ensures [layout] r.days > 0 && calls(Format) == 1 ==> arg(Format, 1) == fileTimeFormat
+//@ func (*DailyRotateRule).OutdatedFiles
+//@   prop C19
+//@   opaque Errorf
+//@   requires r != nil
+//@   ensures [disabled] r.days <= 0 ==> result == nil && calls(Glob) == 0
+//@   ensures [boundary-from-now] calls(Format) == 1 ==> calls(time.Now) == 1 && arg(Format, 0) == ret(Add) && arg(Add, 0) == ret(time.Now) && arg(Add, 1) == 0 - 3600000000000 * (24 * r.days) && arg(Format, 1) == dateFormat
